@@ -352,6 +352,12 @@ func FieldCase(r *rand.Rand, name string, o FieldOpts) *Case {
 			}
 		}
 	}
+	if r.Intn(4) == 0 {
+		// passed-through positions must be the only shared memory
+		convLines = append(convLines, "skipCopySameType")
+		flagsConv.SkipCopy, flagsMeth.SkipCopy = true, true
+		features["skipcopy"] = true
+	}
 	if needIgnoreCase {
 		setFlag("matchIgnoreCase", func(f *vref.Flags) { f.MatchIgnoreCase = true })
 	}
@@ -399,7 +405,7 @@ func FieldCase(r *rand.Rand, name string, o FieldOpts) *Case {
 	if nv == 0 {
 		nv = 30
 	}
-	cv.Spec = &vref.Spec{Seed: o.Seed, NValues: nv, Monitors: []string{"value", "intact"}, Conv: flagsConv}
+	cv.Spec = &vref.Spec{Seed: o.Seed, NValues: nv, Monitors: []string{"value", "intact", "alias", "mutate"}, Conv: flagsConv}
 	c.Convs = []*Converter{cv}
 	c.Patterns = []string{"./conv"}
 	var fl []string
